@@ -60,7 +60,8 @@ namespace cnl {
         {
             auto const natural_last = to_chars_natural(first, last, value, base);
             return std::to_chars_result{
-                    natural_last, natural_last ? std::errc{} : std::errc::value_too_large};
+                    natural_last ? natural_last : last,
+                    natural_last ? std::errc{} : std::errc::value_too_large};
         }
 
         [[nodiscard]] constexpr auto
